@@ -65,14 +65,14 @@ class ExpSystem(System):
                 for p in rates:
                     for s in strats:
                         cfgs.append(dict(cls="exp", E=e, p=p, strat=s, depth=3 * e + 3, budget=budget, prefix=f"x{seed}_",
-                                         cost=budget))
+                                         cost=budget * 4))
         if prop in ("C10", "C05", "C06", "C14", "C19"):
             for e in es[:3]:
                 for q in (1, 2, 3):
                     for p in rates:
                         for s in strats[: 1 if quick and prop != "C10" else 2]:
                             cfgs.append(dict(cls="rot", E=e, Q=q, p=p, strat=s, depth=q * e + e + 3, budget=budget,
-                                             prefix=f"r{seed}_", cost=budget))
+                                             prefix=f"r{seed}_", cost=budget * 4))
         if prop == "C06":
             cfgs = [dict(c, ascii=True) for c in cfgs if c["strat"] == "fnv"]
         if seed:
